@@ -77,6 +77,17 @@ type shaper struct {
 	stream  ssa.Value // canonical stream value
 	problem string
 	depth   int
+	exits   []*ssa.BasicBlock // exit blocks of the loops being walked (targets of break)
+}
+
+// loopExit: b is the exit of a loop whose body is being walked.
+func (s *shaper) loopExit(b *ssa.BasicBlock) bool {
+	for _, e := range s.exits {
+		if e == b {
+			return true
+		}
+	}
+	return false
 }
 
 // streamArg reports whether v denotes the stream being followed.
@@ -389,6 +400,9 @@ func (s *shaper) seq(start, stop *ssa.BasicBlock, seen map[*ssa.BasicBlock]bool)
 	var out []tok
 	cur := start
 	for steps := 0; cur != nil && cur != stop; steps++ {
+		if s.loopExit(cur) && cur != start {
+			return out // break: the iteration ends here
+		}
 		if steps > 400 || seen[cur] {
 			s.problem = "control flow too irregular to extract a wire shape"
 			return out
@@ -420,7 +434,9 @@ func (s *shaper) seq(start, stop *ssa.BasicBlock, seen map[*ssa.BasicBlock]bool)
 					bodySeen[k] = true
 				}
 				delete(bodySeen, cur)
+				s.exits = append(s.exits, exit)
 				kids := append(hdrToks, s.seq(body, cur, bodySeen)...)
+				s.exits = s.exits[:len(s.exits)-1]
 				rep := tok{Kind: "rep", Kids: kids, Pos: last.Pos()}
 				// bound derives from the preceding prim?
 				if len(out) > 0 {
@@ -452,6 +468,15 @@ func (s *shaper) seq(start, stop *ssa.BasicBlock, seen map[*ssa.BasicBlock]bool)
 			}
 			if nilEdge, ok := isErrGuard(last); ok {
 				cur = cur.Succs[nilEdge]
+				continue
+			}
+			// `if c { break }` inside a loop body: the iteration goes on with the other arm
+			if s.loopExit(cur.Succs[0]) && !s.loopExit(cur.Succs[1]) {
+				cur = cur.Succs[1]
+				continue
+			}
+			if s.loopExit(cur.Succs[1]) && !s.loopExit(cur.Succs[0]) {
+				cur = cur.Succs[0]
 				continue
 			}
 			t, f := cur.Succs[0], cur.Succs[1]
